@@ -32,13 +32,25 @@ def map_dump(dump, smap, emap):
             bad.append((s, e))
             return m.group(0)
         return 'File(0, %d, _)' % t
-    return LOC_RE.sub(f, dump), bad
+    return squeeze_pragma_values(LOC_RE.sub(f, dump)), bad
+
+
+PRAGMA_VALUE_RE = re.compile(r'(PragmaDirective\(File\(0, \d+, _\), Identifier \{ loc: File\(0, \d+, _\), name: "[^"]*" \}, '
+                             r'StringLiteral \{ loc: File\(0, \d+, _\), unicode: false, string: ")((?:[^"\\]|\\.)*)(")')
+
+
+def squeeze_pragma_values(dump):
+    """white space inside the raw value of a pragma directive is layout (the value is one token for the lexer)"""
+    def f(m):
+        v = re.sub(r'\\[ntr]|\s', '', m.group(2))
+        return m.group(1) + v + m.group(3)
+    return PRAGMA_VALUE_RE.sub(f, dump)
 
 
 def erase_ends(dump, emap_rev_starts):
     def f(m):
         return 'File(0, %s, _)' % m.group(1)
-    return LOC_RE.sub(f, dump)
+    return squeeze_pragma_values(LOC_RE.sub(f, dump))
 
 
 def line_of(src_bytes, off):
@@ -51,7 +63,7 @@ def rewrite_strings(src, rng):
     b = bytearray(src.encode('utf-8'))
     changed = 0
     for i, (kind, text, s, e) in enumerate(toks):
-        if kind != 'string' or text.startswith(('hex', 'unicode')):
+        if kind != 'string' or text.startswith(('hex', 'unicode', 'address')):
             continue
         if i > 0 and toks[i - 1][1] in ('import', 'from'):
             continue
